@@ -5,7 +5,7 @@
 (* Dev: "flatpair" (a per-pair tuple is kept flat and later indexed as     *)
 (* [algorithm][task] - the pinned tree), "skiplast" (the last task of      *)
 (* every algorithm is skipped), "onemode" (every pair runs in the first    *)
-(* mode).                                                                  *)
+(* mode), "taskfirst" (a tuple of n = m values is read per task).                                                                  *)
 (***************************************************************************)
 EXTENDS MultiRel, TLC
 CONSTANTS MaxN, MaxM, NT, ModeVals, Dev
@@ -16,7 +16,7 @@ Spec == Init /\ [][Next]_c
 
 \* __check_input__ as intended: priority one, per-algorithm, per-task, per-pair
 PickReading(n, m, L) ==
-    IF L = 0 THEN "none" ELSE IF L = 1 THEN "one" ELSE IF L = n THEN "per_algorithm" ELSE IF L = m THEN "per_task"
+    IF L = 0 THEN "none" ELSE IF L = 1 THEN "one" ELSE IF L = n /\ ~(Dev = "taskfirst" /\ L = m) THEN "per_algorithm" ELSE IF L = m THEN "per_task"
     ELSE IF L = n * m THEN "per_pair" ELSE "invalid"
 Accepts(n, m, modes) == PickReading(n, m, Len(modes)) # "invalid" /\ AllModes(modes)
 ModeFor(n, m, modes, a, t) ==
